@@ -519,7 +519,7 @@ func runReplayDriver(vd, name string, model string) (found bool, reproduced bool
 		os.WriteFile(filepath.Join(tmp, "model.smt2"), []byte(model), 0o644)
 		cmd := exec.Command("go", "test", "-overlay", ovf, "-vet=off", "-count=1", "-timeout", "120s", "-run", d.Run, d.Pkg)
 		cmd.Dir = repoDir()
-		cmd.Env = append(os.Environ(), "GOVC_MODEL="+filepath.Join(tmp, "model.smt2"))
+		cmd.Env = append(os.Environ(), "GOVC_MODEL="+filepath.Join(tmp, "model.smt2"), "GOVC_OBLIGATION="+name)
 		b, err := cmd.CombinedOutput()
 		output = trunc(string(b), 6000)
 		reproduced = err != nil && strings.Contains(string(b), "--- FAIL")
